@@ -286,4 +286,22 @@ PROPS = {
             "reads of the real file system are detected through canary files in the worker's working directory whose text must never appear (system calls are not traced)",
         ],
     },
+    "C02": {
+        "quick": [
+            {"test": "TestC02Program", "checks": 40000, "shards": 4},
+            {"test": "TestC02FilterEnum", "kind": "enum", "shards": 2},
+            {"test": "TestC02Filter", "checks": 10000},
+        ],
+        "thorough": [
+            {"test": "TestC02Program", "checks": 2400000, "shards": 16},
+            {"test": "TestC02FilterEnum", "kind": "enum", "shards": 4},
+            {"test": "TestC02Filter", "checks": 200000, "shards": 2},
+        ],
+        "assumptions": [
+            "opt-outs left out by construction: safe, truncatechars_html, truncatewords_html, autoescape off, Go-side AsSafeValue; lorem p (writes its own <p> tags)",
+            "the engine's constant '<type Value>' renderings of containers carry no context text and are deleted before the output is examined (a rendering that contained any of the five characters would not match and would be flagged)",
+            "the filter tag is used only with filters that neither create markup nor can cut an entity in two, over bodies that print scalars",
+            "an execution error renders nothing; error texts are not template output",
+        ],
+    },
 }
